@@ -41,6 +41,22 @@ def classify(body, lines, op):
             rate = int(m.group(1)) if m else 0
     if too_small_for_a_cycle_job(cycle, hrs) and rate <= 1000:
         return "c09:no-miner-can-hold-a-minimum-job-in-one-cycle-and-the-rate-is-below-the-full-miner-threshold"
+    if "runs ahead" in body and 0 < rate <= 1000:
+        # whole miners kept on a contract below the whole-miner threshold while the surplus they build up is under that threshold
+        # (ops repeat: the complaint's place in the history is its elapsed time)
+        m = re.search(r"after (\d+) s", body)
+        upto, el, started = int(m.group(1)) if m else 10 ** 9, 0, False
+        for l in lines:
+            if l.startswith("> purchased"):
+                started = True
+            elif l.startswith("> advance") and started:
+                if el >= upto:
+                    break
+                el += int(l.split()[2])
+            if l.startswith("< cyclelog"):
+                kv = dict(t.split("=") for t in l.split()[3:] if "=" in t)
+                if int(kv.get("full", 0)) >= 1 and -1000 <= int(kv.get("next", 0)) < -100:
+                    return "c09:whole-miners-overstay-on-a-contract-below-the-whole-miner-threshold"
     kind = "ahead" if "runs ahead" in body else "behind" if "falls behind" in body else "other"
     return "c09:delivery-" + kind
 
@@ -116,7 +132,7 @@ def run(ctx):
         pops["too-small" if too_small_for_a_cycle_job(cyc, hrs) else "other"] += 1
     ctx.coverage.update({
         "evaluations": sum(ops.values()), "distinct_nontrivial": L.distinct_count(cases, lambda h, ls: any(l.startswith("< cyclelog") for l in ls)),
-        "rule": "one contract of 4..11 cycles (cycle 60 / 120 / 300 s) at 300 / 800 / 1500 / 2600 GH/s or 1/4, 1/2, 3/4 of the fleet, on a population of 20..49 miners of 90..149 GH/s, 3..5 miners of 4000..11000 GH/s, or 5..14 mixed (120..6000); every half cycle a miner may leave (10%) or join (6%). Non-trivial: a history with at least one cycle log entry; distinct by op list",
+        "rule": "one contract of 4..11 cycles (cycle 60 / 120 / 300 s) at 300 / 800 / 1500 / 2600 GH/s or 1/4, 1/2, 3/4 of the fleet, on a population of 20..49 miners of 90..149 GH/s, 3..5 miners of 4000..11000 GH/s, or 5..14 mixed (120..6000); every half cycle a miner may leave (10%) or join (6%); delivery-window histories (a whole miner leaves mid-cycle, slow end callbacks); late fleets (the contract is bought with too little hashrate connected, 1..3 large miners join half a cycle to four cycles later and stay for ten cycles or more: rates 150..1800 GH/s, the carried shortfall made up by partial or by whole miners); two corpus histories (the known findings). Non-trivial: a history with at least one cycle log entry; distinct by op list",
         "op_distribution": ops, "populations": pops, "cycle_log_entries_checked_against_model": logs, "traces_validated_against_impl": len(cases),
     })
     ctx.samples += [{"case": h, "lines": [l for l in lines if not l.startswith("< miners")][:24]} for h, lines in cases[:2]]
